@@ -270,6 +270,15 @@ def process_integrals(ck, rng, table):
         # agreement is expected within quadrature error only
         if abs(c - ref) > 2e-4:
             bad.append(("cdf_is_integral_of_pdf", f"cdf {c!r} quadrature {ref!r} at {x.tolist()}"))
+        # several rows in one call (rotated order, one duplicate): one value per row, each what the row gives alone
+        pts = np.array([[float(np.quantile(smp[:, 0], q0)), float(np.quantile(smp[:, 1], q1))]
+                        for q0, q1 in ((0.3, 0.4), (0.6, 0.7), (0.8, 0.5))])
+        single = np.array([float(model.cdf(pts[k:k + 1])[0]) for k in range(3)])
+        order = [1, 2, 0, 1]
+        multi = np.asarray(model.cdf(pts[order]), dtype=float)
+        if multi.shape != (4,) or not np.allclose(multi, single[order], rtol=1e-9, atol=1e-12):
+            bad.append(("cdf_one_value_per_row_in_input_order",
+                        f"cdf(rows {order} of {pts.tolist()}) = {multi.tolist()}, row by row {single[order].tolist()}"))
         # marginal consistency for the conditional variable (Monte-Carlo icdf vs quadrature cdf)
         dim = 1
         if model.conditional_on[dim] is not None:
